@@ -109,6 +109,94 @@ def extractor(f):
 
 
 @extractor
+def entity_map(out):
+    """the accessory-database plumbing the model Model/EntityMap.lean mirrors (C20): which keys the serialiser emits under
+    which condition, which keys create_from_dict forwards, which attributes the constructor takes from keyword/table,
+    the table of per-format default values, and the three guards of the second pass / set_value"""
+    t = parse("model/characteristics/characteristic.py")
+    f = func(t, "to_accessory_and_service_list", "Characteristic")
+    ser = []
+
+    def selfattr(n):
+        if isinstance(n, ast.Attribute) and isinstance(n.value, ast.Name) and n.value.id == "self":
+            return n.attr
+        raise Shape("entity_map: expected self.<attr>: " + ast.dump(n))
+    body = [n for n in f.body if not (isinstance(n, ast.Expr) and isinstance(n.value, ast.Constant))]
+    first = body[0]
+    if not (isinstance(first, ast.Assign) and isinstance(first.value, ast.Dict)):
+        raise Shape("entity_map: serialiser does not start with a dict literal")
+    for k, v in zip(first.value.keys, first.value.values):
+        ser.append((k.value, "always", selfattr(v)))
+    for n in body[1:-1]:
+        if not (isinstance(n, ast.If) and not n.orelse and len(n.body) == 1 and isinstance(n.body[0], ast.Assign)):
+            raise Shape("entity_map: unexpected statement in the serialiser: " + ast.dump(n)[:200])
+        a = n.body[0]
+        tgt = a.targets[0]
+        if not (isinstance(tgt, ast.Subscript) and isinstance(tgt.slice, ast.Constant)):
+            raise Shape("entity_map: unexpected assignment target in the serialiser")
+        key, attr = tgt.slice.value, selfattr(a.value)
+        c = n.test
+        if isinstance(c, ast.Compare) and len(c.ops) == 1 and isinstance(c.ops[0], ast.In) and isinstance(c.left, ast.Attribute) and c.left.attr == "paired_read" and selfattr(c.comparators[0]) == "perms":
+            kind = "readable"
+        elif isinstance(c, ast.Compare) and len(c.ops) == 1 and isinstance(c.ops[0], ast.IsNot) and isinstance(c.comparators[0], ast.Constant) and c.comparators[0].value is None:
+            kind = "notNone:" + selfattr(c.left)
+        elif isinstance(c, ast.Attribute):
+            kind = "truthy:" + selfattr(c)
+        elif (isinstance(c, ast.BoolOp) and isinstance(c.op, ast.And) and len(c.values) == 2 and isinstance(c.values[1], ast.Compare) and isinstance(c.values[1].ops[0], ast.In)
+              and selfattr(c.values[1].left) == "format" and isinstance(c.values[1].comparators[0], ast.List)):
+            kind = "truthyAndFormatIn:" + selfattr(c.values[0]) + ":" + ",".join(e.attr for e in c.values[1].comparators[0].elts)
+        else:
+            raise Shape("entity_map: unexpected condition in the serialiser: " + ast.dump(c)[:200])
+        ser.append((key, kind, attr))
+    if not (isinstance(body[-1], ast.Return)):
+        raise Shape("entity_map: serialiser does not end with return")
+    # constructor: self.X = self._get_configuration(kwargs, "kw", default)
+    init = func(t, "__init__", "Characteristic")
+    ctor, consts = [], []
+    for n in init.body:
+        if isinstance(n, ast.Assign) and len(n.targets) == 1 and isinstance(n.targets[0], ast.Attribute) and getattr(n.targets[0].value, "id", "") == "self":
+            v = n.value
+            if isinstance(v, ast.Call) and isinstance(v.func, ast.Attribute) and v.func.attr == "_get_configuration":
+                dflt = v.args[2]
+                ctor.append((n.targets[0].attr, v.args[1].value, "None" if (isinstance(dflt, ast.Constant) and dflt.value is None) else "other"))
+            elif isinstance(v, ast.Constant) and n.targets[0].attr in ("ev", "maxLen"):
+                consts.append((n.targets[0].attr, repr(v.value)))
+    # DEFAULT_FOR_TYPE
+    dft = None
+    for n in t.body:
+        if isinstance(n, ast.Assign) and getattr(n.targets[0], "id", "") == "DEFAULT_FOR_TYPE":
+            dft = [(k.attr, ast.unparse(v)) for k, v in zip(n.value.keys, n.value.values)]
+    if dft is None:
+        raise Shape("entity_map: DEFAULT_FOR_TYPE")
+    # set_value: bool(...) only for the bool format
+    sv = func(t, "set_value", "Characteristic")
+    coerce = [ast.unparse(n.test) for n in ast.walk(sv) if isinstance(n, ast.If)]
+    # create_from_dict
+    m = parse("model/__init__.py")
+    cfd = func(m, "create_from_dict", "Accessory")
+    fwd, guards = [], []
+    for n in ast.walk(cfd):
+        if isinstance(n, ast.If):
+            c = n.test
+            if isinstance(c, ast.Compare) and isinstance(c.ops[0], ast.In) and isinstance(c.left, ast.Constant) and getattr(c.comparators[0], "id", "") == "char_data":
+                a = n.body[0]
+                if not (len(n.body) == 1 and isinstance(a, ast.Assign) and isinstance(a.targets[0], ast.Subscript) and a.targets[0].value.id == "kwargs"
+                        and isinstance(a.value, ast.Subscript) and a.value.slice.value == c.left.value):
+                    raise Shape("entity_map: unexpected forwarding in create_from_dict")
+                fwd.append((c.left.value, a.targets[0].slice.value))
+            else:
+                guards.append(ast.unparse(c))
+    kw0 = [ast.unparse(n.value) for n in ast.walk(cfd) if isinstance(n, ast.Assign) and getattr(n.targets[0], "id", "") == "kwargs"]
+    svc = parse("model/services/service.py")
+    sser = func(svc, "to_accessory_and_service_list", "Service")
+    sguards = [ast.unparse(n.test) for n in ast.walk(sser) if isinstance(n, ast.If)]
+    sinit = func(svc, "__init__", "Service")
+    siid = [ast.unparse(n.value) for n in sinit.body if isinstance(n, ast.Assign) and isinstance(n.targets[0], ast.Attribute) and n.targets[0].attr == "iid"]
+    out["EntityMap"] = {"ser": ser, "ctor": ctor, "consts": consts, "defaults": dft, "coerce": coerce, "forward": fwd, "kwargs0": kw0,
+                        "loadGuards": guards, "serviceSerGuards": sguards, "serviceIid": siid}
+
+
+@extractor
 def ip_numbers(out):
     t = parse("controller/ip/connection.py")
     d = {}
@@ -648,6 +736,51 @@ def emit_install(out, files):
         L.append(f"def {k} : List String := " + lean_list(d[k], lean_str))
     L.append("end HapVerif.Gen.Install")
     files["Install.lean"] = "\n".join(L) + "\n"
+
+
+@emitter
+def emit_entity_map(out, files):
+    d = out["EntityMap"]
+    t3 = lambda r: f"({lean_str(r[0])}, {lean_str(r[1])}, {lean_str(r[2])})"  # noqa: E731
+    t2 = lambda r: f"({lean_str(r[0])}, {lean_str(r[1])})"  # noqa: E731
+
+    def cond(c):
+        if c == "always":
+            return ".always"
+        if c == "readable":
+            return ".readable"
+        k, _, rest = c.partition(":")
+        if k in ("truthy", "notNone"):
+            return f"(.{k} {lean_str(rest)})"
+        if k == "truthyAndFormatIn":
+            a, _, fmts = rest.partition(":")
+            return f"(.truthyAndFormatIn {lean_str(a)} {lean_list(fmts.split(','), lean_str)})"
+        raise Shape("entity_map: condition " + c)
+    L = ["/-! GENERATED by tools/translate.py from model/characteristics/characteristic.py, model/__init__.py, model/services/service.py - do not edit. -/",
+         "namespace HapVerif.Gen.EntityMap",
+         "/-- the condition under which `to_accessory_and_service_list` emits a key -/",
+         "inductive Cond",
+         "  | always",
+         "  | readable                                                  -- `CharacteristicPermissions.paired_read in self.perms`",
+         "  | truthy (attr : String)                                    -- `if self.<attr>:`",
+         "  | notNone (attr : String)                                   -- `if self.<attr> is not None:`",
+         "  | truthyAndFormatIn (attr : String) (formats : List String) -- `if self.<attr> and self.format in [...]:`",
+         "  deriving DecidableEq, Repr",
+         "/-- (JSON key, condition, attribute) in emission order -/",
+         "def ser : List (String × Cond × String) := " + lean_list(d["ser"], lambda r: f"({lean_str(r[0])}, {cond(r[1])}, {lean_str(r[2])})"),
+         "/-- (attribute, keyword argument, default) of `self.X = self._get_configuration(kwargs, kw, default)` -/",
+         "def ctor : List (String × String × String) := " + lean_list(d["ctor"], t3),
+         "def consts : List (String × String) := " + lean_list(d["consts"], t2),
+         "def defaults : List (String × String) := " + lean_list(d["defaults"], t2),
+         "def coerce : List String := " + lean_list(d["coerce"], lean_str),
+         "/-- (JSON key, keyword argument) forwarded by `create_from_dict` when the key is present -/",
+         "def forward : List (String × String) := " + lean_list(d["forward"], t2),
+         "def kwargs0 : List String := " + lean_list(d["kwargs0"], lean_str),
+         "def loadGuards : List String := " + lean_list(d["loadGuards"], lean_str),
+         "def serviceSerGuards : List String := " + lean_list(d["serviceSerGuards"], lean_str),
+         "def serviceIid : List String := " + lean_list(d["serviceIid"], lean_str),
+         "end HapVerif.Gen.EntityMap"]
+    files["EntityMap.lean"] = "\n".join(L) + "\n"
 
 
 @emitter
